@@ -3,9 +3,11 @@ package main
 import (
 	"encoding/json"
 	"os"
+	"os/exec"
 	"path/filepath"
 	"regexp"
 	"sort"
+	"strings"
 )
 
 type ReplayFile struct {
@@ -22,6 +24,7 @@ type ReplayFile struct {
 	Path       []string          `json:"path,omitempty"`
 	SolverOut  string            `json:"solver_output"`
 	Replayed   bool              `json:"replayed_on_real_code"`
+	ReplayPkg  string            `json:"replay_package_dir,omitempty"`
 	ReplayTest string            `json:"replay_test_source,omitempty"`
 	ReplayOut  string            `json:"replay_output,omitempty"`
 	Note       string            `json:"note,omitempty"`
@@ -93,4 +96,31 @@ func itoa(n int) string {
 // tryReplay: per-function adapters turn a model into a concrete test run against the real code.
 func tryReplay(g *G, rf *ReplayFile, o *Obl) bool {
 	return false
+}
+
+// runReplayTest injects an in-package test with go test -overlay (nothing is written into the repo)
+// and runs it against the real code.  Returns output and whether the test failed.
+func runReplayTest(pkgDir, src string) (string, bool) {
+	tmp, err := os.MkdirTemp(filepath.Join(*flagVerif, ".work"), "replay")
+	if err != nil {
+		os.MkdirAll(filepath.Join(*flagVerif, ".work"), 0755)
+		tmp, err = os.MkdirTemp(filepath.Join(*flagVerif, ".work"), "replay")
+		if err != nil {
+			return err.Error(), false
+		}
+	}
+	defer os.RemoveAll(tmp)
+	tf := filepath.Join(tmp, "zz_replay_test.go")
+	os.WriteFile(tf, []byte(src), 0644)
+	target := filepath.Join(*flagRepo, pkgDir, "zz_govc_replay_test.go")
+	ov := map[string]map[string]string{"Replace": {target: tf}}
+	ob, _ := json.Marshal(ov)
+	of := filepath.Join(tmp, "ov.json")
+	os.WriteFile(of, ob, 0644)
+	cmd := exec.Command("bash", "-c", "ulimit -v 8000000; cd "+filepath.Join(*flagRepo, pkgDir)+" && go test -overlay "+of+" -vet=off -count=1 -timeout 60s -run TestGovcReplay . 2>&1 | tail -40")
+	cmd.Env = append(os.Environ(), "GOFLAGS=-mod=mod", "GOPROXY=off", "GOSUMDB=off", "GOTOOLCHAIN=local")
+	out, _ := cmd.CombinedOutput()
+	txt := string(out)
+	failed := strings.Contains(txt, "--- FAIL") || strings.Contains(txt, "panic:") || strings.Contains(txt, "FAIL\t")
+	return txt, failed
 }
